@@ -37,18 +37,22 @@ fn scenarios_for(prop: &str, tier: Tier) -> Vec<Box<dyn Scenario>> {
         }
         "C02" => {
             let mut v: Vec<Box<dyn Scenario>> = vec![
-                Box::new(CallsScenario { minors: [20, 20, 14, 20], depth: tier.pick(12, 24), max_calls: tier.pick(3, 4), serials: tier.pick(vec![0, 1], vec![0, 1, 2]), crash_points: false }),
-                Box::new(CallsScenario { minors: [14, 16, 20, 14], depth: tier.pick(12, 24), max_calls: tier.pick(3, 4), serials: vec![0, 1], crash_points: false }),
-                Box::new(CallsScenario { minors: [16, 19, 15, 20], depth: tier.pick(11, 20), max_calls: 3, serials: tier.pick(vec![0, 1], vec![0, 1, 2]), crash_points: false }),
+                Box::new(CallsScenario { minors: [20, 20, 14, 20], depth: tier.pick(12, 24), max_calls: tier.pick(3, 4), serials: tier.pick(vec![0, 1], vec![0, 1, 2]), crash_points: false, two_services: false }),
+                Box::new(CallsScenario { minors: [14, 16, 20, 14], depth: tier.pick(12, 24), max_calls: tier.pick(3, 4), serials: vec![0, 1], crash_points: false, two_services: false }),
+                Box::new(CallsScenario { minors: [16, 19, 15, 20], depth: tier.pick(11, 20), max_calls: 3, serials: tier.pick(vec![0, 1], vec![0, 1, 2]), crash_points: false, two_services: false }),
             ];
             // dropped connection tasks (zombies: the broker notices on its next send to them)
-            v.push(Box::new(CallsScenario { minors: [20, 16, 20, 14], depth: tier.pick(9, 14), max_calls: 2, serials: vec![0, 1], crash_points: true }));
+            v.push(Box::new(CallsScenario { minors: [20, 16, 20, 14], depth: tier.pick(9, 14), max_calls: 2, serials: vec![0, 1], crash_points: true, two_services: false }));
+            // two services on the owner: a caller serial released by an abort is re-used for a call
+            // to the other service while the first service is destroyed
+            v.push(Box::new(CallsScenario { minors: [20, 20, 16, 20], depth: tier.pick(6, 9), max_calls: 2, serials: vec![0, 1], crash_points: false, two_services: true }));
+            v.push(Box::new(CallsScenario { minors: [15, 14, 20, 20], depth: tier.pick(5, 8), max_calls: 2, serials: vec![0], crash_points: false, two_services: true }));
             // the same with an owner below 1.19 (calls are forwarded as CallFunction, not CallFunction2)
-            v.push(Box::new(CallsScenario { minors: [18, 20, 14, 20], depth: tier.pick(8, 12), max_calls: 2, serials: vec![0, 1], crash_points: true }));
+            v.push(Box::new(CallsScenario { minors: [18, 20, 14, 20], depth: tier.pick(8, 12), max_calls: 2, serials: vec![0, 1], crash_points: true, two_services: false }));
             if tier == Tier::Thorough {
-                v.push(Box::new(CallsScenario { minors: [14, 19, 20, 16], depth: 11, max_calls: 2, serials: vec![0, 1], crash_points: true }));
-                v.push(Box::new(CallsScenario { minors: [19, 18, 20, 16], depth: 14, max_calls: 3, serials: vec![0, 1], crash_points: false }));
-                v.push(Box::new(CallsScenario { minors: [15, 20, 19, 18], depth: 14, max_calls: 3, serials: vec![0, 1], crash_points: false }));
+                v.push(Box::new(CallsScenario { minors: [14, 19, 20, 16], depth: 11, max_calls: 2, serials: vec![0, 1], crash_points: true, two_services: false }));
+                v.push(Box::new(CallsScenario { minors: [19, 18, 20, 16], depth: 14, max_calls: 3, serials: vec![0, 1], crash_points: false, two_services: false }));
+                v.push(Box::new(CallsScenario { minors: [15, 20, 19, 18], depth: 14, max_calls: 3, serials: vec![0, 1], crash_points: false, two_services: false }));
             }
             v
         }
